@@ -502,6 +502,7 @@ class Folder:
                 return list(r) if meth in ("items", "keys", "values") else r
             if isinstance(recv, (str, bytes)) and meth in (
                 "lower", "upper", "join", "encode", "decode", "replace", "startswith", "endswith", "strip", "split", "hex", "isdigit", "format", "title",
+                "rsplit", "partition", "rpartition", "lstrip", "rstrip", "isnumeric", "isdecimal", "find", "rfind", "count",
             ):
                 return getattr(recv, meth)(*args, **kwargs)
             if isinstance(recv, (list, tuple)) and meth in ("index", "count"):
